@@ -56,7 +56,7 @@ MODEL = dict(
     ],
     quick=dict(sample=4500, drive_runs=360, drive_len=40),
     thorough=dict(sample=None, drive_runs=6000, drive_len=60, tlc_timeout=3000),
-    need=[(o, r) for o in ("forward", "approve", "allow", "disallow") for r in ("ok", "fail")],
+    need=[(o, r) for o in ("forward", "approve", "allow", "disallow", "sweep") for r in ("ok", "fail")],
     need_cnt=["C19_auth", "C19_charge", "C19_target", "C19_atomic", "C19_allowance", "C19_allowlist",
               "C19_allowed_getter", "C19_list_enum", "C19_list_edit"],
     selftest=[
@@ -83,11 +83,19 @@ MODEL = dict(
         lambda ev: set_field(ev, ["obs", "list", "allowed", "t2"], not ev["obs"]["list"]["allowed"]["t2"]),
         # a library getter that trapped
         lambda ev: set_field(ev, ["obs", "list", "getter_ok"], False),
+        # a sweep that reports one unit less than it paid out
+        lambda ev: set_field(ev, ["ret"], ev["ret"] - 1) if ev["op"]["op"] == "sweep" and ev["res"] == "ok" else None,
+        # a refused sweep reported as accepted
+        lambda ev: set_field(ev, ["res"], "ok") if ev["op"]["op"] == "sweep" and ev["res"] == "fail" and ev["err"] != -9 else None,
         # a duplicate allow reported as accepted
         lambda ev: set_field(ev, ["res"], "ok") if ev["op"]["op"] == "allow" and ev["res"] == "fail" else None,
     ],
 )
 SERVES = {
+    # beyond the listed properties: sweeping the collected fees out of the forwarder (monitors X06_*)
+    "X06": dict(assumptions=[
+        "sweep_tokens of the permissioned example (gated by the manager role) and the library's sweep_token behind a thin "
+        "ungated entry point; the permissionless example has no such entry point (calls are recorded as refused)"]),
     "C19": dict(assumptions=[
         "fee tokens are Base fungible tokens (allowance = amount + live_until_ledger); the target is a logging "
         "contract of the harness; the user's authorization is an explicit mock authorization tree, so 'the user "
